@@ -326,7 +326,7 @@ class Run:
                 big = abs(fr(m0) * F(f0) / F(f1)) > F(10) ** 300
             except (OverflowError, ValueError, ZeroDivisionError):
                 big = True
-            if big:
+            if big or self.extreme(R, it0) or self.extreme(R, it1):
                 self.ck.count("float-range-exhausted")
                 return True
         if special(m0) or special(m1):
@@ -347,6 +347,12 @@ class Run:
             good = a == b
         else:
             good = abs(a - b) <= REL * max(abs(a), abs(b))
+        if not good and not (exact and all(exact_num(x) for x in (f0, f1, nominal(m0), nominal(m1)))) and \
+                (self.extreme(R, it0) or self.extreme(R, it1)):
+            # a power of a single unit is beyond 1e+-250: pint's float factor passes through the subnormal /
+            # overflow range (planck_time**7 = 1.3e-303) and loses digits there
+            self.ck.count("float-range-exhausted")
+            return True
         if not good:
             self.fail(f"{what}:value", f"{what} changed the physical value: {float(a)!r} -> {float(b)!r} (root units)", rp)
         if is_ufloat(m0) and good:
@@ -358,6 +364,16 @@ class Run:
             if s1 is None or abs(s0 - s1) > REL * max(abs(s0), abs(s1)):
                 self.fail(f"{what}:uncertainty", f"{what} changed the standard deviation", rp)
         return good
+
+    def extreme(self, R, items):
+        for k, v in items:
+            try:
+                f = F(R.root(mkc(R.u, {k: F(1)}))[0])
+                if f > 0 and abs(math.log10(f) * float(v)) > 250:
+                    return True
+            except Exception:  # noqa: BLE001
+                return True
+        return False
 
     def twin(self, R, what, fun_res, ito_res, rp):
         """in-place form leaves the object equal to what the functional form returns"""
@@ -608,7 +624,8 @@ def run(ck):
                        "passed to the model, only its dimensionality is checked",
                        "float range: an OverflowError / inf produced by pint's own float factor computation (extreme compound units such as "
                        "planck_time**-3 * thomson_cross_section**-3, including intermediate overflow for a representable result) is counted as "
-                       "float-range-exhausted, not as a changed value",
+                       "float-range-exhausted, not as a changed value; so is a tolerance failure (1e-9) when a single unit power of the "
+                       "quantity is beyond 1e+-250 (gradual underflow inside pint's float factor: planck_time**7 = 1.3e-303)",
                        "to_compact in floats: the model is exact; a difference is accepted as explained only when the exact "
                        "magnitude is within 2^-40 (relative) of a power-of-1000 boundary"]
     ck.trusted += ["math.log10 / float rounding (not modelled: F12)", "python-mip / CBC (parameter of the model)"]
